@@ -421,6 +421,22 @@ theorem stmt_main_sem : ∀ f : Nat,
           ExecIL ms (.repeat_ (condIL Cfg.fixed fc) loopBodyF) σIL σIL' ∧ Inv c σC' σIL') :=
   stmt_main_sem_low hms (lb := false) (fun h => nomatch h) hc env
 
+/-- the loop part of `stmt_main_sem` in the form it had before the condition-position carve-out `CarveCSem` existed (the
+    condition value-carved, `CarveESem`, and `condOK` for the repaired lowering): a corollary of the present form -/
+theorem stmt_main_sem_loop_value_cond (f : Nat) :
+    ∀ v cond body st bs bsf st' cc fc stepE loopBody loopBodyF σC σIL σC', compileExpr (codeEnv env) cond = .ok cc →
+        compileExpr (fixedEnv env) cond = .ok fc → CarveESem env.assigned cond = true → condOK fc = true →
+        compileStmts (codeEnv env) st body = .ok (bs, st') → compileStmts (fixedEnv env) st body = .ok (bsf, st') →
+        CarveSsSem env body = true →
+        LoopShape ms c v 0 bs stepE loopBody → LoopShape ms c v 0 bsf stepE loopBodyF →
+        WFStmts c body = true → (cond :: exprsOfList body).all (WFES c) = true → Inv c σC σIL →
+        loopC ms f v cond 0 body σC = .ok σC' →
+        ∃ σIL', ExecIL ms (.repeat_ (condIL Cfg.asCode cc) loopBody) σIL σIL' ∧
+          ExecIL ms (.repeat_ (condIL Cfg.fixed fc) loopBodyF) σIL σIL' ∧ Inv c σC' σIL' := by
+  intro v cond body st bs bsf st' cc fc stepE loopBody loopBodyF σC σIL σC' hcc hF hcx hcok
+  exact (stmt_main_sem hms hc env f).2.2 v cond body st bs bsf st' cc fc stepE loopBody loopBodyF σC σIL σC' hcc hF
+    (carveCSem_of_carveESem hcx (by rw [hF]; exact hcok))
+
 /-- **T2-semantic for statements (all forms)**: on the semantic carve-out the repaired lowering succeeds whenever the
     lowering as coded does, with the same `TSt`, and whenever the C statement terminates from a related state both
     effects run — to the SAME IL state, related to the final C state. -/
